@@ -17,6 +17,9 @@
        maximal mean, so the shift cancels).
      * row order, LINEAR policies (exact arithmetic, scale=False; RowOrder.v): X'X and X'y do not depend on the order of the rows, so
        fit on the same observations in another order leaves A, X'y, A^-1 and beta of every arm unchanged;
+     * row order, LINEAR policies as a statement about the whole object, scale=True INCLUDED (RowOrderLin.v): _RidgeRegression.fit depends on its
+       rows only through column sums, X'X and X'y, so on permuted (context, reward) pairs it returns the same regression whatever it held before
+       (first fit, partial fits, standardisation fitted or updated); fit and partial_fit on a permuted rectangular batch leave the SAME policy object;
      * row order, RADIUS (NbrRowOrder.v): what a query selects is a FILTER of the stored history (decision, reward, context triples whose
        context is within the radius), so two policies whose histories are permutations of each other select, for every query,
        permutations of the same observations (any number structure), the neighbourhood is empty for both or neither, and (exact
@@ -26,7 +29,7 @@
     ..._partial: LinGreedy's scale law and KNearest row-order invariance are checked by the transformed-twin
     relation on the implementation. *)
 From Coq Require Import List ZArith Bool Arith QArith Qcanon Permutation.
-From MW Require Import Num Assoc AssocFacts Rng Par CF CFInv CFClean CFForget CFSpec Matrix Lin Warm WarmInv Nbr NbrFacts NbrIndep LshFacts Clu Tree CellFacts Mab FacadeCF FacadeArms MoreFacts NumLaws CFAlg Sim Extra QcInst OrderFacts ExpIrrel LinInv FacadeLin LpInv NbrInv CluTreeInv FacadeAll ToyFacts C09All C10All LinForget LinSim MatrixFacts GaussJordan LinSpec NbrIndepGen CluIndep C17Lin WarmIdem C14More LshScale TreeLeaf Rename PopSpec CopyFacts StatFacts CluBatch LinWarm RowOrder NbrRowOrder LshWhole.
+From MW Require Import Num Assoc AssocFacts Rng Par CF CFInv CFClean CFForget CFSpec Matrix Lin Warm WarmInv Nbr NbrFacts NbrIndep LshFacts Clu Tree CellFacts Mab FacadeCF FacadeArms MoreFacts NumLaws CFAlg Sim Extra QcInst OrderFacts ExpIrrel LinInv FacadeLin LpInv NbrInv CluTreeInv FacadeAll ToyFacts C09All C10All LinForget LinSim MatrixFacts GaussJordan LinSpec NbrIndepGen CluIndep C17Lin WarmIdem C14More LshScale TreeLeaf Rename PopSpec CopyFacts StatFacts CluBatch LinWarm RowOrder NbrRowOrder LshWhole RowOrderLin.
 Import ListNotations.
 
 Theorem C20_renamed_arm_sees_the_same_reward_batches :
@@ -58,6 +61,37 @@ Theorem C20_mean_shift_law :
   add N (div N (nsum N l) (of_Z N (Z.of_nat (length l)))) c.
 Proof. exact @mean_shift. Qed.
 Print Assumptions C20_mean_shift_law.
+
+Theorem C20_ridge_fit_invariant_under_row_permutation :
+  forall (R G : Type) (N : Num R),
+  NumLaws N ->
+  forall (d : nat) (m : (@ridge R G)) (xy xy' : list (list R * R)),
+  Permutation xy xy' ->
+  ridge_fit N d m (map fst xy) (map snd xy) = ridge_fit N d m (map fst xy') (map snd xy').
+Proof. exact @ridge_fit_permutation. Qed.
+Print Assumptions C20_ridge_fit_invariant_under_row_permutation.
+
+Theorem C20_linear_fit_on_permuted_rows_same_object :
+  forall (R A G : Type) (N : Num R),
+  NumLaws N ->
+  forall (aeqb : A -> A -> bool) (s : (@lin R A G)) (g : G) (rows rows' : list (A * R * list R)),
+  Permutation rows rows' ->
+  uniform_width (ncols (cx_of rows)) (cx_of rows) ->
+  lin_fit N aeqb s g (ds_of rows) (rs_of rows) (cx_of rows) =
+  lin_fit N aeqb s g (ds_of rows') (rs_of rows') (cx_of rows').
+Proof. exact @lin_fit_permutation. Qed.
+Print Assumptions C20_linear_fit_on_permuted_rows_same_object.
+
+Theorem C20_linear_partial_fit_on_permuted_rows_same_object :
+  forall (R A G : Type) (N : Num R),
+  NumLaws N ->
+  forall (aeqb : A -> A -> bool) (s : (@lin R A G)) (g : G) (rows rows' : list (A * R * list R)) (w : nat),
+  Permutation rows rows' ->
+  uniform_width w (cx_of rows) ->
+  lin_partial_fit N aeqb s g (ds_of rows) (rs_of rows) (cx_of rows) =
+  lin_partial_fit N aeqb s g (ds_of rows') (rs_of rows') (cx_of rows').
+Proof. exact @lin_partial_fit_permutation. Qed.
+Print Assumptions C20_linear_partial_fit_on_permuted_rows_same_object.
 
 Theorem C20_lsh_row_order_selects_a_permutation :
   forall (R A G : Type) (N : Num R) (s s' : (@nbr R A G)) (h h' : list (A * R * list R)) 
